@@ -14,7 +14,7 @@ TRUSTED = ['datetime.strptime enters the model as a Section variable valid_time 
            'on the time tag the model reports)']
 ASSUMPTIONS = ['world.testing/log.testing off; Python asserts enabled (no -O)']
 LEVEL_TEXT = ('Coq theorems over an executable Gallina model of ircmsgs.py (tag escaping, tag dict, string branch of IrcMsg.__init__, __str__): '
-              'tag-value round trip for all strings, parse(serialize m) = norm m for all well-formed m (any tags, prefix, middles, arbitrary trailing), '
+              'tag-value round trip for all strings, str() stable under its cache, parse(serialize m) = norm m for all well-formed m (any tags, prefix, middles, arbitrary trailing), '
               'parsing total for EVERY string (C05_parse_total: a value or MalformedIrcMsg, nothing else; finding F3 repaired); the model is tied to the source by a regenerated '
               'escape table / except-clause list and by a differential run (exhaustive short hostile lines + generated messages) against the real IrcMsg on every check.')
 LEVEL_NOTE = ('Trusted: Coq kernel, gen_tables.py, ExtrOcamlBasic extraction + OCaml driver, the Python harness; datetime.strptime is a Section '
@@ -129,7 +129,7 @@ def wf_msg(g):
     return True
 
 
-def check_msg(ctx, ircmsgs, g, mout):
+def check_msg(ctx, ircmsgs, g, mout, mout2=None):
     inp = {'op': 'build', 'msg': g}
     ctx.case('structured' + ('-tags' if g['tags'] else ''), inp)
     try:
@@ -140,6 +140,12 @@ def check_msg(ctx, ircmsgs, g, mout):
         return
     if mout is not None and wire.s(mout) != line:
         ctx.disagree(inp, wire.s(mout), line, 'str(IrcMsg(kw))')
+    # the cache: every later str()/len() must give the string the first str() gave (theorem C05_str_stable)
+    line2, n = str(m), len(m)
+    if mout2 is not None and [wire.s(x) for x in mout2] != [line, line2]:
+        ctx.disagree(inp, [wire.s(x) for x in mout2], [line, line2], 'two successive str(IrcMsg(kw))')
+    if line2 != line or n != len(line):
+        ctx.fail(inp, 'str() is not stable: first %r, second %r, len() %d' % (line, line2, n))
     if wf_msg(g):
         ir, m2 = impl_parse(ircmsgs, line)
         norm = [[k, (v if v != '' else None)] for k, v in g['tags'].items()]
@@ -204,8 +210,9 @@ def run(ctx):
     # structured messages
     gs = [gen_msg(rng) for _ in range(ctx.n(4000))]
     mo = ctx.model([msg_wire(g) for g in gs])
-    for g, o in zip(gs, mo):
-        check_msg(ctx, ircmsgs, g, o)
+    mo2 = ctx.model([[4, msg_wire(g)[1]] for g in gs])
+    for g, o, o2 in zip(gs, mo, mo2):
+        check_msg(ctx, ircmsgs, g, o, o2)
 
 
 def replay(ctx, inp):
